@@ -10,15 +10,15 @@ A_, T0, M0, X0, TP, PP = var('A'), var('T0'), var('m0'), var('x0'), var('Tp'), v
 
 
 class Config:
-    def __init__(s, func, mode='vacuum', program=False, comp_type='weight', curves='one', initial=False, model='NRTL', swapped=False):
-        s.func = func; s.mode = mode; s.program = program; s.comp_type = comp_type; s.curves = curves; s.initial = initial; s.model = model; s.swapped = swapped
+    def __init__(s, func, mode='vacuum', program=False, comp_type='weight', curves='one', initial=False, model='NRTL', swapped=False, curve_type='weight'):
+        s.curve_type = curve_type; s.func = func; s.mode = mode; s.program = program; s.comp_type = comp_type; s.curves = curves; s.initial = initial; s.model = model; s.swapped = swapped
         s.ideal = func.startswith('ideal'); s.iso = 'non_isothermal' not in func
 
     def tag(s):
         t = "%s.%s" % (s.func.replace('_process', ''), s.mode)
         if s.program: t += ".program"
         if s.comp_type != 'weight': t += ".molar-feed"
-        if not s.ideal: t += ".%s-curve%s" % (s.curves, ".initial-permeances" if s.initial else "")
+        if not s.ideal: t += ".%s-curve%s%s" % (s.curves, ".initial-permeances" if s.initial else "", ".molar-curves" if s.curve_type != 'weight' else "")
         if s.model != 'NRTL': t += "." + s.model
         return t
 
@@ -64,7 +64,7 @@ def inputs(src, cfg, mix=None):
                         program=program_obj(src) if cfg.program else None)
     kw = dict(conditions=cond, number_of_steps=N, delta_hours=DT, precision=PREC, calculation_type=cfg.model)
     if not cfg.ideal:
-        kw['diffusion_curve_set'] = curve_set(src, mix, cfg.curves)
+        kw['diffusion_curve_set'] = curve_set(src, mix, cfg.curves, cfg.curve_type)
         if cfg.initial: kw['initial_permeances'] = (W.permeance(src, var('Pi1')), W.permeance(src, var('Pi2')))
     return pv, kw
 
@@ -88,6 +88,14 @@ def run(cx, cfg, extra_contracts=None, extra_pre=()):
     f = src.find('Pervaporation.' + cfg.func)
     ps = cx.explore(lambda ex: ex.call_function(f, [], dict(kw), self_obj=pv, inline=True), contracts=ctr, pre=pre(cfg) + list(extra_pre), max_paths=2000)
     return pv, kw, ps
+
+
+def frame_probe(cx):
+    """the non-ideal process models on curve sets given in MOLE fractions (the branch that converts the curve compositions): explored
+    only for its heap writes, which Ctx.explore accumulates for no_hidden_state()"""
+    for f in ('non_ideal_isothermal_process', 'non_ideal_non_isothermal_process'):
+        for curves in ('one', 'many'):
+            run(cx, Config(f, 'vacuum', False, 'weight', curves, False, curve_type='molar'))
 
 
 class Step:
